@@ -30,7 +30,10 @@ def gen(rng):
         if ('development/' + hot.rsplit('.', 1)[0]) not in heads:
             heads.append('hotfix/' + hot)
             tags.append(hot + '.0')
-    cfg = {'heads': heads, 'tags': tags}
+    ids = list(range(1, 9))
+    if rng.random() < 0.6:
+        rng.shuffle(ids)
+    cfg = {'heads': heads, 'tags': tags, 'ids': ids}
     dests = list(heads)
     ops = []
     npr = 0
@@ -102,7 +105,11 @@ class Sim:
             return
         targets = self.lay.targets(dst)
         self.npr += 1
-        pr = self.npr
+        # ids are given at PR creation, not at queue entry: any order
+        ids = self.cfg.get('ids') or list(range(1, 20))
+        pr = ids[(self.npr - 1) % len(ids)]
+        if pr in self.targets:
+            pr = max(self.targets) + 1
         src = 'bugfix/TEST-%d' % pr
         self.targets[pr] = targets
         group = 'hotfix:' + dst if dst.startswith('hotfix/') else 'main'
